@@ -621,3 +621,141 @@ def unbound(ctx, repo, scope=("",), rule="UNBOUND", _self=False):
 
 NEW = [first_only, none_sentinel, acc_reset, presence_kind, num_fmt, unbound]
 GENERIC.extend(NEW)
+
+
+# ---------------------------------------------------------------------------
+# ATTR-NEAR / DEAD-DEF / CACHE-KEY
+# ---------------------------------------------------------------------------
+_POSITIVE["ATTR-NEAR"] = '''
+class Silf:
+    def decompile(self, data):
+        self.numCritFeatures = len(data)
+    def compile(self):
+        return self.numCritFeaturs * 2
+'''
+_POSITIVE["DEAD-DEF"] = '''
+class T1:
+    def getFixedEncoder(self):
+        def encodeFixed(value):
+            raise TypeError("no floats")
+'''
+_POSITIVE["CACHE-KEY"] = '''
+_cache = {}
+def getformat(fmt, keep_pad_byte=False):
+    try:
+        return _cache[fmt]
+    except KeyError:
+        names = [n for n in fmt.split(";") if keep_pad_byte or n != "x"]
+        _cache[fmt] = names
+    return names
+'''
+ATTR_NEAR_AUDIT = {
+    ("misc/testTools.py", "TestCase", "assertRaisesRegexp"): "deliberate alias for the Python 2 spelling",
+}
+
+
+def attr_near(ctx, repo, scope=("",), rule="ATTR-NEAR", _self=False):
+    from .pens import _lev1
+
+    ctx.rule(rule, "a `self.x` that is read but never assigned anywhere in the class or its bases, while an attribute one edit away is assigned, is a misspelling (AttributeError on the path that reads it)", floor=1)
+    if not _self:
+        _selfcheck(ctx, rule, attr_near)
+    for rel in sorted(repo.rels()):
+        if not _in_scope(rel, scope):
+            continue
+        m = repo.mod(rel)
+        total = 0
+        bad = []
+        for q, c in sorted(m.classes.items()):
+            stored = set()
+            for k in repo.mro(c) if hasattr(repo, "mro") and getattr(repo, "_mods", None) is not None else [c]:
+                stored |= set(k.methods) | set(k.attrs)
+                for n in ast.walk(k.node):
+                    if isinstance(n, ast.Attribute) and isinstance(n.value, ast.Name) and n.value.id == "self" and isinstance(n.ctx, ast.Store):
+                        stored.add(n.attr)
+                    if isinstance(n, ast.Call) and isinstance(n.func, ast.Name) and n.func.id == "setattr" and len(n.args) >= 2 and isinstance(n.args[1], ast.Constant):
+                        stored.add(n.args[1].value)
+            loaded = {n.attr for n in ast.walk(c.node) if isinstance(n, ast.Attribute) and isinstance(n.value, ast.Name) and n.value.id == "self" and isinstance(n.ctx, ast.Load)}
+            total += len(loaded)
+            for y in sorted(loaded - stored):
+                if len(y) < 6:
+                    continue
+                near = [x for x in stored if len(x) >= 6 and _lev1(x, y) <= 1 and x.lower() != y.lower() + "s" and y.lower() != x.lower() + "s"]
+                if near and (rel, q, y) not in ATTR_NEAR_AUDIT:
+                    bad.append(f"{q}: self.{y} is never assigned; self.{sorted(near)[0]} is")
+        if total:
+            ctx.ob(rule, f"{rel}:<module>", f"{total} distinct self attributes read: none is a near-miss of an assigned one", not bad, "; ".join(bad[:3]))
+
+
+def dead_def(ctx, repo, scope=("",), rule="DEAD-DEF", _self=False):
+    ctx.rule(rule, "a function defined inside another function is used there (called, returned, stored, passed on, decorated); one that is only defined was meant to be returned or registered", floor=1)
+    if not _self:
+        _selfcheck(ctx, rule, dead_def)
+    for rel in sorted(repo.rels()):
+        if not _in_scope(rel, scope):
+            continue
+        m = repo.mod(rel)
+        total = 0
+        bad = []
+        for q, f in sorted(m.funcs.items()):
+            inner = [n for n in f.node.body if isinstance(n, (ast.FunctionDef, ast.AsyncFunctionDef))] if isinstance(f.node, (ast.FunctionDef, ast.AsyncFunctionDef)) else []
+            inner += [n for st in getattr(f.node, "body", []) if isinstance(st, (ast.If, ast.For, ast.While, ast.With, ast.Try)) for n in ast.walk(st) if isinstance(n, (ast.FunctionDef, ast.AsyncFunctionDef)) and parent(n) is not f.node and consistency.enclosing_func(n) is f.node] if hasattr(consistency, "enclosing_func") else []
+            for d in inner:
+                total += 1
+                if d.decorator_list:
+                    continue
+                used = any(isinstance(n, ast.Name) and n.id == d.name and isinstance(n.ctx, ast.Load) for n in ast.walk(f.node))
+                if not used:
+                    bad.append(f"{q}: inner function {d.name} is defined and never used")
+        if total:
+            ctx.ob(rule, f"{rel}:<module>", f"{total} inner functions are all used by their enclosing function", not bad, "; ".join(bad[:3]))
+
+
+def cache_key(ctx, repo, scope=("",), rule="CACHE-KEY", _self=False):
+    ctx.rule(rule, "a function that memoises its result in a module-level dict keys the cache on every parameter the computed value depends on; a parameter read while computing but absent from the key makes the first caller's variant answer all later calls", floor=1)
+    if not _self:
+        _selfcheck(ctx, rule, cache_key)
+    for rel in sorted(repo.rels()):
+        if not _in_scope(rel, scope):
+            continue
+        m = repo.mod(rel)
+        module_dicts = {k for k, v in m.assigns.items() if isinstance(v, ast.Dict) and not v.keys}
+        total = 0
+        bad = []
+        for q, f in sorted(m.funcs.items()):
+            if not isinstance(f.node, (ast.FunctionDef, ast.AsyncFunctionDef)) or f.cls is not None:
+                continue
+            stores = [n for n in walk_no_nested(f.node) if isinstance(n, ast.Assign) and isinstance(n.targets[0], ast.Subscript) and isinstance(n.targets[0].value, ast.Name) and n.targets[0].value.id in module_dicts]
+            loads = [n for n in walk_no_nested(f.node) if isinstance(n, ast.Subscript) and isinstance(n.ctx, ast.Load) and isinstance(n.value, ast.Name) and n.value.id in module_dicts]
+            if not stores or not loads:
+                continue
+            a = f.node.args
+            params = [x.arg for x in a.posonlyargs + a.args + a.kwonlyargs]
+            total += 1
+            keynames = set()
+            for n in [st.targets[0] for st in stores] + loads:
+                keynames |= {x.id for x in ast.walk(n.slice) if isinstance(x, ast.Name)}
+            # parameters read outside the key expressions
+            carriers = set(keynames)
+            changed = True
+            while changed:  # names derived only from key names carry no extra information
+                changed = False
+                for n in walk_no_nested(f.node):
+                    if isinstance(n, ast.Assign) and isinstance(n.targets[0], ast.Name) and n.targets[0].id not in carriers:
+                        src = {x.id for x in ast.walk(n.value) if isinstance(x, ast.Name)} & set(params)
+                        if src and src <= carriers:
+                            carriers.add(n.targets[0].id)
+                            changed = True
+            used = set()
+            for n in walk_no_nested(f.node):
+                if isinstance(n, ast.Name) and isinstance(n.ctx, ast.Load) and n.id in params:
+                    used.add(n.id)
+            missing = sorted(p for p in used if p not in carriers)
+            if missing:
+                bad.append(f"{q}: cache {stores[0].targets[0].value.id} is keyed on {sorted(keynames)} but the value also depends on {missing}")
+        if total:
+            ctx.ob(rule, f"{rel}:<module>", f"{total} memoising functions key their cache on every parameter they read", not bad, "; ".join(bad[:3]))
+
+
+NEW2 = [attr_near, dead_def, cache_key]
+GENERIC.extend(NEW2)
